@@ -530,6 +530,18 @@ pub fn run(_tier: &str) -> Report {
                 Ok(Ok(())) => {}
             }
         }
+        // client authenticated media download: the timeout in milliseconds (default 20 s, left out when it is the default)
+        {
+            use ruma_client_api::authenticated_media::get_content::v1::Request;
+            let server = ruma_common::OwnedServerName::try_from("s.org").unwrap();
+            for ms in [20_000u64, 20_500, 20_999, 19_999, 1, 0, 60_000] {
+                req_round_trip!("client authenticated_media get_content", Request, {
+                    let mut r = Request::new("mediaid".to_owned(), server.clone());
+                    r.timeout_ms = std::time::Duration::from_millis(ms);
+                    r
+                }, vec![server.to_string(), "mediaid".to_owned()]);
+            }
+        }
         // client error responses: the kind with its own fields survives the wire
         {
             use ruma_client_api::error::{ErrorBody, ErrorKind};
@@ -600,7 +612,7 @@ pub fn run(_tier: &str) -> Report {
         }
     }
     Report {
-        bound: format!("3 synthetic endpoints (path x2, query incl. optional and multi-valued, header, JSON body incl. optional field, newtype body, raw body, status override 302): 11^3 (path, query, body) triples x 3 version sets x 3 optional-field shapes and the other endpoints' value lists; real endpoints: the public-rooms requests (client v3 POST, federation v1 POST and GET), push gateway notify, client get_threads and search_events, client sync v3 responses, client error responses (8 kinds): {n} round trips"),
+        bound: format!("3 synthetic endpoints (path x2, query incl. optional and multi-valued, header, JSON body incl. optional field, newtype body, raw body, status override 302): 11^3 (path, query, body) triples x 3 version sets x 3 optional-field shapes and the other endpoints' value lists; real endpoints: the public-rooms requests (client v3 POST, federation v1 POST and GET), push gateway notify, client get_threads and search_events, client authenticated media get_content, client sync v3 responses, client error responses (8 kinds): {n} round trips"),
         cases: n,
         obligations: vec![
             ("requests_survive_the_http_wire_format_and_reencode_identically", n, f_req),
